@@ -109,6 +109,55 @@ Proof.
   apply send_from_empty_fails; assumption.
 Qed.
 
+(** * Multi-sends and the empty module account *)
+(** after stateless validation the decoded outputs fit balance keys and carry the same coins *)
+Lemma vb_unbech_outs_ok e : bank_env_ok e -> forall outs outs',
+  vb_outs e outs = Ok tt -> unbech_outs e outs = Some outs' ->
+  outs_ok outs' /\ outs_coins outs' = outs_coins outs.
+Proof.
+  intros He. induction outs as [|[a cs] r IH]; intros outs' Hvb Hu.
+  - cbn [unbech_outs] in Hu. injection Hu as <-. split; [constructor | reflexivity].
+  - cbn [vb_outs unbech_outs] in Hvb, Hu. unfold validate_addr in Hvb.
+    destruct (e_unbech e a) as [a'|] eqn:Ea; [|discriminate]. cbn [bind] in Hvb.
+    destruct (coins_valid cs) eqn:Ecv; [|discriminate].
+    destruct (unbech_outs e r) as [r'|]; [|discriminate]. injection Hu as <-.
+    destruct (IH r' Hvb eq_refl) as [I1 I2]. split.
+    + constructor; [|exact I1]. cbn [fst snd]. split; [apply (env_unbech_addr_ok e a a' He Ea)|].
+      apply (coins_valid_spec cs Ecv).
+    + unfold outs_coins. cbn [flat_map snd]. f_equal. exact I2.
+Qed.
+
+Lemma not_blocked_outs e (outs : list (bytes * coins)) x :
+  existsb (fun o => mem_bytes (fst o) (e_blocked e)) outs = false -> In x (e_blocked e) -> ~ In x (map fst outs).
+Proof.
+  intros Hex Hin Hx. apply in_map_iff in Hx as [o [Eo Ho]].
+  assert (Hm : mem_bytes (fst o) (e_blocked e) = false).
+  { destruct (mem_bytes (fst o) (e_blocked e)) eqn:M; [|reflexivity].
+    rewrite <- Hex. symmetry. apply existsb_exists. exists o. split; assumption. }
+  apply (not_blocked_neq e (fst o) x Hm Hin). exact Eo.
+Qed.
+
+(** a multi-send none of whose outputs is the burn module account keeps the invariant and leaves that account
+    empty (as the input it can only "send" amounts of zero, and it receives nothing) *)
+Lemma multi_send_keeps_module_empty bk now from cs outs bk' :
+  Bank_inv bk -> (forall d, balance bk GenApp.burn_module_account d = 0%N) ->
+  addr_ok from -> Forall (fun c => denom_ok (fst c)) cs -> outs_ok outs ->
+  (forall d, amount_of cs d = amount_of (outs_coins outs) d) ->
+  ~ In GenApp.burn_module_account (map fst outs) ->
+  multi_send bk now from cs outs = Some bk' ->
+  Bank_inv bk' /\ forall d, balance bk' GenApp.burn_module_account d = 0%N.
+Proof.
+  intros Hi Hz Hf Hok Houts Hsum Hnin Hs.
+  destruct (multi_send_spec bk now from cs outs bk' Hi Hf Hok Houts Hsum Hs) as (P1 & _ & _ & _ & P5 & P6).
+  split; [exact P1|]. intros d. destruct (denom_ok_dec d) as [Hd|Hd].
+  - pose proof (received_not_in outs _ Hnin) as Hr.
+    destruct (bytes_eq_dec from GenApp.burn_module_account) as [E|E].
+    + subst from. pose proof (P6 d Hd) as Q. rewrite Hr, (Hz d), amount_of_nil in Q. lia.
+    + rewrite (P5 GenApp.burn_module_account d burn_module_account_ok Hd) by congruence.
+      rewrite Hr, (Hz d), amount_of_nil. reflexivity.
+  - apply balance_not_ok; [apply Bank_inv_Bal; exact P1 | tauto].
+Qed.
+
 (** * One validated base message *)
 Lemma BI_same_bank c c' : c_bank c' = c_bank c -> BI c -> BI c'.
 Proof. intros E H. unfold BI. rewrite E. exact H. Qed.
@@ -117,7 +166,7 @@ Lemma exec_base_BI : forall e c m c' a,
   bank_env_ok e -> vb_base e m = Ok tt -> exec_base e c m = Ok (c', a) -> BI c -> BI c'.
 Proof.
   intros e c m c' a He Hvb Hx [Hi Hz].
-  destruct m as [am|dm|pm|f t amt|f t amt et|g r u ex|g r u].
+  destruct m as [am|dm|pm|f t amt|f t amt et|g r u ex|g r u|f amt outs].
   - apply (BI_same_bank c); [|split; assumption]. apply (exec_custom_bank e c (BAol am) c' a eq_refl Hx).
   - apply (BI_same_bank c); [|split; assumption]. apply (exec_custom_bank e c (BDid dm) c' a eq_refl Hx).
   - apply (BI_same_bank c); [|split; assumption]. apply (exec_custom_bank e c (BPnft pm) c' a eq_refl Hx).
@@ -162,6 +211,28 @@ Proof.
     destruct (e_unbech e g) as [ga|]; [|discriminate]. destruct (e_unbech e r) as [ra|]; [|discriminate].
     destruct (find_grant (c_grants c) ga ra u); [|discriminate].
     inversion Hx; subst c' a. split; assumption.
+  - (* BMultiSend *)
+    cbn [vb_base exec_base] in Hvb, Hx.
+    assert (Hvb' : (do _ <- validate_addr (e_unbech e) f;
+                    if negb (coins_valid amt) then Err cs_sdk 10
+                    else do _ <- vb_outs e outs;
+                         if coins_eqb amt (outs_coins outs) then Ok tt else Err cs_bank 4) = Ok tt)
+      by (destruct outs; [discriminate Hvb | exact Hvb]).
+    clear Hvb. unfold validate_addr in Hvb'.
+    destruct (e_unbech e f) as [fa|] eqn:Ef; [|discriminate]. cbn [bind] in Hvb'.
+    destruct (coins_valid amt) eqn:Ecv; cbn [negb] in Hvb'; [|discriminate].
+    destruct (vb_outs e outs) as [[]| |] eqn:Evo; cbn [bind] in Hvb'; try discriminate.
+    destruct (coins_eqb amt (outs_coins outs)) eqn:Eeq; [|discriminate].
+    destruct (unbech_outs e outs) as [outs'|] eqn:Eu; [|discriminate].
+    destruct (existsb (fun o => mem_bytes (fst o) (e_blocked e)) outs') eqn:Ebl; [discriminate|].
+    destruct (multi_send (c_bank c) (e_now e) fa amt outs') as [bk|] eqn:Es; [|discriminate].
+    inversion Hx; subst c' a. unfold BI. cbn [c_bank with_bank].
+    destruct (coins_valid_spec amt Ecv) as (_ & _ & Hok).
+    destruct (vb_unbech_outs_ok e He outs outs' Evo Eu) as [Houts Hco].
+    apply (multi_send_keeps_module_empty (c_bank c) (e_now e) fa amt outs' bk Hi Hz
+             (env_unbech_addr_ok e f fa He Ef) Hok Houts); [| |exact Es].
+    + intros d. rewrite Hco. apply coins_eqb_spec. exact Eeq.
+    + apply (not_blocked_outs e outs' _ Ebl). apply He.
 Qed.
 
 (** * The ante handler *)
@@ -177,7 +248,7 @@ Proof.
   assert (One : forall s l, (do a <- addr_or_panic e s; Ok [a]) = Ok l -> Forall addr_ok l).
   { intros s l H1. destruct (addr_or_panic e s) as [a0| |] eqn:Ea; simpl in H1; try discriminate.
     inversion H1; subst l. constructor; [apply (addr_or_panic_addr_ok e s a0 He Ea) | constructor]. }
-  destruct m as [am|dm|pm|f t amt|f t amt et|g r u ex|g r u]; simpl in H.
+  destruct m as [am|dm|pm|f t amt|f t amt et|g r u ex|g r u|f amt outs]; simpl in H.
   - destruct am as [t d o|t mo d w o|t w o|t k v w o f]; try (apply (One _ _ H)).
     destruct (addr_or_panic e w) as [wa| |] eqn:Ew; simpl in H; try discriminate.
     pose proof (addr_or_panic_addr_ok e w wa He Ew) as Hwa.
@@ -188,6 +259,7 @@ Proof.
       constructor; [exact Hwa | constructor].
   - destruct dm as [did doc vmid sg from|did doc vmid sg from|did vmid sg from]; apply (One _ _ H).
   - destruct pm; apply (One _ _ H).
+  - apply (One _ _ H).
   - apply (One _ _ H).
   - apply (One _ _ H).
   - apply (One _ _ H).
@@ -379,8 +451,71 @@ Proof.
   - intros d. reflexivity.
 Qed.
 
+(** non-vacuity of the multi-send case: a validated multi-send with one output at the burn address and one elsewhere
+    is accepted from a state satisfying the invariant, and the end-blocker of that block burns the burn address's share *)
+Definition ms_unbech (s : bytes) : option bytes := if verify_address_format s then Some s else None.
+Definition ms_A : bytes := b "AAAAAAAAAAAAAAAAAAAA".
+Definition ms_B : bytes := b "BBBBBBBBBBBBBBBBBBBB".
+Definition ms_env : env :=
+  {| e_unbech := ms_unbech; e_now := 100%Z; e_fee_collector := b "FFFFFFFFFFFFFFFFFFFF";
+     e_blocked := [GenApp.burn_module_account]; e_bech := fun a => a; e_b58key := fun _ => None;
+     e_verify := fun _ _ _ => false |}.
+Definition ms_bank : bank :=
+  {| balances := [(bal_key ms_A umed, 10%N)]; supply := [(umed, 10%N)]; vestings := []; accounts := [ms_A] |}.
+Definition ms_msg : base_msg :=
+  BMultiSend ms_A [(umed, 10%N)] [(GenApp.burn_address, [(umed, 7%N)]); (ms_B, [(umed, 3%N)])].
+
+Lemma ms_env_ok : bank_env_ok ms_env.
+Proof.
+  split; [|split; [|split]].
+  - intros s a H. cbn [ms_env e_unbech] in H. unfold ms_unbech in H.
+    destruct (verify_address_format s) eqn:E; [|discriminate]. inversion H; subst a. exact E.
+  - left. reflexivity.
+  - unfold addr_ok. apply Nat.leb_le. vm_compute. reflexivity.
+  - apply bytes_eqb_neq. vm_compute. reflexivity.
+Qed.
+
+Lemma ms_A_ok : addr_ok ms_A.
+Proof. unfold addr_ok. apply Nat.leb_le. vm_compute. reflexivity. Qed.
+
+Lemma ms_bank_BI : BI (with_bank empty_chain ms_bank).
+Proof.
+  assert (Hi : Bank_inv ms_bank).
+  { split.
+    - unfold ms_bank. cbn [balances sorted lb]. auto.
+    - intros k n G. unfold ms_bank in G. cbn [balances get] in G.
+      destruct (bytes_eqb k (bal_key ms_A umed)) eqn:E; [|discriminate].
+      injection G as <-. split; [discriminate|].
+      exists ms_A, umed. split; [exact ms_A_ok|]. split; [exact umed_ok|]. apply bytes_eqb_eq. exact E.
+    - intros d Hd. unfold total_balance, supply_of, ms_bank. cbn [balances supply tb get].
+      rewrite (weight_bal_key d _ umed 10%N ms_A_ok umed_ok). rewrite (bytes_eqb_sym d umed).
+      destruct (bytes_eqb umed d); reflexivity. }
+  split; cbn [c_bank with_bank]; [exact Hi|]. intros d. destruct (denom_ok_dec d) as [Hd|Hd].
+  - unfold balance, ms_bank. cbn [balances get].
+    destruct (bytes_eqb (bal_key GenApp.burn_module_account d) (bal_key ms_A umed)) eqn:E; [|reflexivity].
+    apply bytes_eqb_eq in E. apply bal_key_inj in E as [E _];
+      [|exact burn_module_account_ok|exact Hd|exact ms_A_ok|exact umed_ok].
+    exfalso. revert E. apply bytes_eqb_neq. vm_compute. reflexivity.
+  - apply balance_not_ok; [apply Bank_inv_Bal; exact Hi | tauto].
+Qed.
+
+Example multi_send_reaches_burn_address :
+  let c := with_bank empty_chain ms_bank in
+  bank_env_ok ms_env /\ BI c /\ vb_base ms_env ms_msg = Ok tt /\
+  exists c', exec_base ms_env c ms_msg = Ok (c', []) /\
+    balance (c_bank c') ms_A umed = 0%N /\ balance (c_bank c') GenApp.burn_address umed = 7%N /\
+    balance (c_bank c') ms_B umed = 3%N /\ supply_of (c_bank c') umed = 10%N /\
+    balance (c_bank (end_block ms_env c')) GenApp.burn_address umed = 0%N /\
+    supply_of (c_bank (end_block ms_env c')) umed = 3%N.
+Proof.
+  intros c. split; [exact ms_env_ok|]. split; [exact ms_bank_BI|]. split; [vm_compute; reflexivity|].
+  destruct (exec_base ms_env c ms_msg) as [[c' a]| |] eqn:Ex; [|vm_compute in Ex; discriminate Ex ..].
+  exists c'. vm_compute in Ex. inversion Ex; subst c' a. repeat split; vm_compute; reflexivity.
+Qed.
+
 Print Assumptions send_from_empty_fails.
 Print Assumptions required_signers_addr_ok.
+Print Assumptions multi_send_keeps_module_empty.
 Print Assumptions exec_base_BI.
 Print Assumptions ante_BI.
 Print Assumptions end_block_BI_sink.
@@ -391,3 +526,4 @@ Print Assumptions run_BI.
 Print Assumptions run_accounting.
 Print Assumptions run_sink.
 Print Assumptions BI_empty.
+Print Assumptions multi_send_reaches_burn_address.
